@@ -449,6 +449,7 @@ pub fn run(tier: Tier) -> i32 {
     let mut acc = Acc::merge_all(accs.into_iter().map(|(a, _)| a).collect());
     acc.transitions += transitions;
     plain_summaries(&mut acc);
+    crate::envprobe::judge(&mut acc, "C15:", &mut c.extra);
     c.acc = acc;
     c.rule = "state = (outer shape in {delegated step alone, delegated step followed by a step that MATCHes its products, a step followed by the delegated step, delegated step alone whose first inner step has no materials and whose last has no products}, inner sequence of 1..3 steps, 2 or 3 delegation levels, set of active deviations); transition = toggle one deviation starting from the fully valid tree; each state is one in_toto_verify run on a freshly built directory tree; non-trivial = at least one deviation".into();
     c.bound_completed = format!("{} trees x all sets of <= {max_dev} compatible deviations out of {}; plain layouts of 1..3 steps for the summary clause", trees.len(), DEVIATIONS.len());
